@@ -43,7 +43,8 @@ def _callee(t):
     fn = f.get('fn_resolved') or f.get('fn')
     if fn is None:
         return None
-    return re.sub(r'\bcopia::', '', fn)
+    from facts import norm
+    return norm(fn)
 
 
 def _shift_place(p, loff):
@@ -328,7 +329,8 @@ def _closure_of(F, b, op):
     alld = [st for blk in b.blocks for st in blk['stmts'] if st['dst']['l'] == op['p']['l']]
     if len(defs) != 1 or len(alld) != 1:
         return None
-    cb = F.bodies.get(re.sub(r'\bcopia::', '', defs[0]['rv']['def']))
+    from facts import norm
+    cb = F.bodies.get(norm(defs[0]['rv']['def']))
     if cb is None or cb.kind != 'closure' or len(cb.blocks) > MAX_BLOCKS:
         return None
     return cb
